@@ -189,6 +189,16 @@ fn c05(g: &mut Gen) {
         }
         lines.push(format!("iv X with_capacity 5 {}", w));
     }
+    // pack() at the width boundaries: the largest item is exactly 2^k − 1, 2^k, 2^k + 1 (and the vector is already minimal or not)
+    for k in [1u64, 2, 6, 7, 8, 12, 31, 32, 33, 62, 63] {
+        for top in [(1u64 << k) - 1, 1u64 << k, (1u64 << k) + 1, (1u64 << (k - 1)).saturating_sub(1)] {
+            for w0 in [k, k + 1, 64] {
+                if w0 > 64 { continue; }
+                lines.push(format!("iv P new {}", w0)); lines.push(format!("iv P push {}", top)); lines.push("iv P push 0".to_string()); lines.push(format!("iv P push {}", top / 2));
+                lines.push("iv P pack".to_string()); lines.push("iv P ser".to_string());
+            }
+        }
+    }
     for ty in ["u8", "u16", "u32", "u64", "usize", "iter64"] {
         lines.push(format!("iv V from_vec {} 1 2 300 70000 5000000000 0", ty));
         lines.push("iv V pack".to_string());
